@@ -1,6 +1,8 @@
 package base
 
 import (
+	"fmt"
+
 	"github.com/relex/gotils/promexporter/promext"
 	"github.com/relex/gotils/promexporter/promreg"
 	"github.com/relex/slog-agent/util"
@@ -42,6 +44,25 @@ type logProcessCustomCounterVec struct {
 type logKeySetCounterPair struct {
 	inputCounter   *LogInputCounterSet
 	customCounters []*logCustomCounterImpl
+}
+
+// VerifyMetricKeyFields checks that the given fields can serve as metric keys, i.e. as the metric labels
+// "key_<field>": the names must be valid Prometheus label names and must not repeat. The metric registry
+// panics otherwise, when the first pipeline is created or the first log arrives.
+func VerifyMetricKeyFields(fieldNames []string) error {
+	seen := make(map[string]struct{}, len(fieldNames))
+	for i, name := range fieldNames {
+		for _, c := range []byte(name) {
+			if !(c == '_' || (c >= '0' && c <= '9') || (c >= 'a' && c <= 'z') || (c >= 'A' && c <= 'Z')) {
+				return fmt.Errorf("[%d]: field '%s' cannot be used as metric label: only [a-zA-Z0-9_] allowed", i, name)
+			}
+		}
+		if _, dup := seen[name]; dup {
+			return fmt.Errorf("[%d]: field '%s' is listed twice", i, name)
+		}
+		seen[name] = struct{}{}
+	}
+	return nil
 }
 
 // NewLogProcessCounter creates a LogProcessCounter
